@@ -76,6 +76,7 @@ def run(chk, replay=None):
     stats = collections.Counter()
     pol = collections.Counter()
     oracle, corr = [], []
+    kf = {f['id']: f for f in known_findings()['findings'] if f['property'] == 'C06'}
     wd = tempfile.mkdtemp(prefix='c06-')
     try:
         # 1. correspondence: re-basing
@@ -215,7 +216,22 @@ def run(chk, replay=None):
                     break
             if not bad and 'total' not in vals.get('main', {}):
                 bad = 'main.total is not computed by the flat model'
-            want = 3 * md['n'] + 2 + (1 if md['opts']['clash_comp'] not in (None, 'm1') else 0)
+            want = 3 * md['n'] + 2 + (1 if md['opts']['clash_comp'] not in (None, 'm1') else 0) + md.get('nown', 0)
+            if not bad and md.get('nown'):
+                # the components of the importing model that are encapsulated in the instance: all there, with their own units
+                dd = binascii.unhexlify(res['dump'].split()[1][1:]).decode('utf-8', 'replace')
+                ms_def = re.search(r"\(units #%s [^\n]*" % 'ms'.encode().hex(), dd)
+                for j in range(md['nown']):
+                    mo = re.search(r"\(component #%s [^\n]*?\(var #%s (#[0-9a-f]*) " % (('own%d' % j).encode().hex() + '(?:5f[0-9a-f]+)?', 'zz'.encode().hex()), dd)
+                    if not mo:
+                        bad = 'the component own%d that the importing model encapsulates in the import is missing from the flat model' % j; break
+                    un = bytes.fromhex(mo.group(1)[1:]).decode()
+                    ud = re.search(r"\(units #%s [^\n]*" % un.encode().hex(), dd)
+                    if ud is None or 'second'.encode().hex() not in ud.group(0):
+                        if md['opts']['mv'] == 'ms' and 'C06-own-children-units-captured' in kf:
+                            chk.known_finding(kf['C06-own-children-units-captured']['what']); stats['known_units_captured'] += 1
+                        else:
+                            bad = 'the variable of own%d, declared in milliseconds by the importing model, has units %s in the flat model, which are not a millisecond' % (j, un); break
             if not bad and nrep != want:
                 bad = '%d variables are reported by the flat model, %d equivalence classes are expected' % (nrep, want)
             if bad:
@@ -224,6 +240,9 @@ def run(chk, replay=None):
             names = component_names(res['dump'])
             used = ['m%d' % (i + 1) for i in range(md['n'])] + ['main'] + ([md['opts']['clash_comp']] if md['opts']['clash_comp'] not in (None, 'm1') else [])
             sub = (['mid'] if md['depth'] == 2 else []) + ['leafA', 'leafB']
+            if md.get('nown'):
+                stats['module_ok'] += 1
+                continue        # the names of components moved across with the instance are outside the fresh-name model
             name_lines.append('(names (%s) (%s) %d)' % (' '.join(used), ' '.join(sub), md['n'])); name_meta.append((sorted(names), rec))
             stats['module_ok'] += 1
         # a subtree with the names a and a_1 imported into a model that has a component a: the renamed a must not take a_1
